@@ -87,6 +87,23 @@ def abiOp (fields : List String) (impl : Option Outcome) : Outcome × String :=
           if allFit toks then "VIOLATION:encodable-value-rejected" else "ok"
         | _ => "VIOLATION:unparsable-implementation-outcome"
       (model, verdict)
+  | "abi.rt" :: ty :: fs =>
+    -- round trip through the encoder and the decoder (C07: decode (encode v) = v for every legal v)
+    match encToks ty fs with
+    | none => (.fail, "ok")
+    | some toks =>
+      let legal := allFit toks &&
+        !(ty == "link" && (match toks with | [_, _, .uint8 v, _, _, _] => v.toNat > 4 | _ => true))
+      let model : Outcome := match rawEncode toks with
+        | .ok b => (match modelDecode ty b with | some rs => .ok rs [] [] | none => .fail)
+        | .error _ => .fail
+      let verdict := match impl with
+        | some (.ok rs _ _) =>
+          if !legal then "VIOLATION:illegal-value-survived-the-round-trip"
+          else if rs == toks.map tokOut then "ok" else "VIOLATION:round-trip-changed-the-value"
+        | some .fail => if legal then "VIOLATION:legal-value-does-not-round-trip" else "ok"
+        | _ => "VIOLATION:unparsable-implementation-outcome"
+      (model, verdict)
   | ["abi.dec", ty, hex] =>
     match tysOf ty, parseArg hex with
     | some tys, some bs =>
